@@ -75,6 +75,10 @@ func (e Engine) Generate(cfg simkit.RunConfig) (any, bool) {
 		case "", "workload", "nofault", "crash", "crashfaults", "faults", "leftover":
 			addAsserts(cfg.Seed, s)
 		}
+		switch strings.TrimSuffix(cfg.Mode, "-R") {
+		case "", "workload", "nofault", "reads", "ryw":
+			addReplicaReads(cfg.Seed, s)
+		}
 	}
 	return sc, ok
 }
@@ -298,6 +302,12 @@ func (Engine) Execute(t *testing.T, cfg simkit.RunConfig, scenario any) *simkit.
 		vs = append(vs, simkit.Violation{Property: cfg.Property, Class: "fatal-log", Sig: firstWords(f, 4), Detail: "the library logged at Fatal level (the process would have exited): " + f})
 	}
 	if w.ref != nil {
+		if w.ref.FollowerServed > 0 {
+			res.Stats["probe.replica-read.served-by-follower"] += w.ref.FollowerServed
+		}
+		if w.ref.NotReady > 0 {
+			res.Stats["fault.stale-read-data-not-ready"] += w.ref.NotReady
+		}
 		for _, m := range w.ref.Misrouted {
 			vs = append(vs, simkit.Violation{Property: "C01", Class: "misrouted-request", Sig: firstWords(m, 2), Detail: m})
 		}
